@@ -26,6 +26,12 @@ theorem finish_not_panic (cfg : RawCfg) (st : RawSt) (ct : Nat) (d : Bytes) :
     (finish cfg st ct d).2.isPanic = false := by
   unfold finish; split <;> rfl
 
+theorem verified_not_panic (cfg : RawCfg) (st : RawSt) (ct : Nat) (p : Bytes) :
+    (verified cfg st ct p).2.isPanic = false := by
+  unfold verified
+  repeat' split
+  all_goals first | rfl | exact finish_not_panic ..
+
 /-- **No panic.**  With a receive buffer of at least 12 bytes (the protocol
     minimum is 8192) no frame — any bytes, any oracle verdict — in any state
     makes the receive path panic. -/
@@ -36,7 +42,7 @@ theorem C13_nopanic (cfg : RawCfg) (h : 12 ≤ cfg.rcvBuf) (st : RawSt) (f : Fra
   unfold rawStep
   simp only [if_neg h8, if_neg h12]
   repeat' split
-  all_goals first | rfl | exact finish_not_panic ..
+  all_goals first | rfl | exact finish_not_panic .. | exact verified_not_panic ..
 
 /-- … so a whole run never panics -/
 theorem C13_nopanic_run (cfg : RawCfg) (h : 12 ≤ cfg.rcvBuf) (st : RawSt) (fs : List Frame) :
@@ -150,7 +156,7 @@ theorem C13_full_memory_bound_false (cfg : Cfg) (hone : exceeds cfg.chunk0 1 cfg
     policy and carries an acceptable RSA certificate makes `readChunk` overwrite
     the instance's algorithm before anything is verified; on an open secured
     server channel properly sealed chunks are rejected from then on. -/
-theorem C13_opn_clobbers_active_instance (cfg : RawCfg) (st : RawSt) (f : Frame) (c : Chunk)
+theorem C13_opn_clobbers_active_instance (cfg : RawCfg) (st : RawSt) (f : Frame) (c : Bytes)
     (h12 : 12 ≤ cfg.rcvBuf) (hsec : cfg.secure = true) (hclob : st.clobbered = true)
     (hlen : 16 ≤ f.raw.length) (hmsg : f.raw.take 3 = tMSG)
     (hchan : leVal ((f.raw.drop 8).take 4) ∈ st.chans) (ho : f.opens = some c) :
@@ -162,7 +168,7 @@ theorem C13_opn_clobbers_active_instance (cfg : RawCfg) (st : RawSt) (f : Frame)
   have e1 : ¬ (tMSG = tERR) := by decide
   have e2 : ¬ (tMSG = tOPN) := by decide
   have e3 : ¬ (tMSG = tCLO) := by decide
-  simp [rawStep, h1, h3, h4, hmsg, e1, e2, e3, hchan, hsec, ho, hclob]
+  simp [rawStep, verified, h1, h3, h4, hmsg, e1, e2, e3, hchan, hsec, ho, hclob]
 
 /-! ### non-vacuity: raw frames on an open None-mode channel (channel id 11) -/
 
